@@ -186,12 +186,21 @@ def writeContainer (pos : Nat) (c : Container) : Res Bits :=
 
 /-! ## vdr_dm_data (vdr_dm_data.rs:191-245) -/
 
+/-- field codings emitted by `VdrDmData::write` for the uncompressed payload, in order (transliterated from
+the writer: `write_signed_n(…, 16)` for the two 3×3 matrices, `write_n` for the rest) -/
+def dmMainWriteLayout : List Fld :=
+  [.s16, .s16, .s16, .s16, .s16, .s16, .s16, .s16, .s16, .u 32, .u 32, .u 32,
+   .s16, .s16, .s16, .s16, .s16, .s16, .s16, .s16, .s16,
+   .u 16, .u 16, .u 16, .u 32, .u 5, .u 2, .u 2, .u 2, .u 12, .u 12, .u 10]
+
+/-- one emitted field -/
+def writeFld (f : Fld) (v : Int) : Res Bits :=
+  match f with
+  | .u n => writeN n v.toNat
+  | .s16 => writeSigned16 16 v
+
 def dmMainWriteFields (d : DmData) : List (Res Bits) :=
-  let v (i : Nat) : Int := d.main.getD i 0
-  let u (n i : Nat) : Res Bits := writeN n (v i).toNat
-  let s (i : Nat) : Res Bits := writeSigned16 16 (v i)
-  (List.range 9).map s ++ [u 32 9, u 32 10, u 32 11] ++ (List.range 9).map (fun i => s (12 + i)) ++
-  [u 16 21, u 16 22, u 16 23, u 32 24, u 5 25, u 2 26, u 2 27, u 2 28, u 12 29, u 12 30, u 10 31]
+  (dmMainWriteLayout.zip d.main).map fun (f, v) => writeFld f v
 
 def writeDmData (pos : Nat) (d : DmData) : Res Bits :=
   (wcat ([writeUe d.affected_dm_metadata_id, writeUe d.current_dm_metadata_id, writeUe d.scene_refresh_flag] ++
